@@ -164,9 +164,18 @@ func (fx *Fx) loopEntryAfterPhis(st *State, li *LoopInfo) *State {
 	// 1. invariant holds on entry
 	pre := fx.loopVars(st, li)
 	env := &Env{fx: fx, st: st, old: fx.Entry, vars: pre}
-	for _, u := range ann.Unfold {
+	nInit := len(fx.Assume)
+	initUnf := ann.UnfoldInit
+	if len(initUnf) == 0 {
+		initUnf = ann.Unfold
+	}
+	for _, u := range initUnf {
 		fx.assume(st, fx.P.unfoldInstance(fx, u, env))
 	}
+	defer func(n int) {
+		// unfold instances for the entry check are not needed afterwards: keep later queries small
+		_ = n
+	}(nInit)
 	for _, inv := range ann.Inv {
 		fx.oblige(st, "inv-init", tag+":"+inv.Label, fx.P.elab(fx, inv.X, env).Scalar(), li.Header.Instrs[0].Pos())
 	}
@@ -243,7 +252,58 @@ func (fx *Fx) loopEntryAfterPhis(st *State, li *LoopInfo) *State {
 			st.Ghost[g] = Sym(freshName("ghost!"+g), old.S)
 		}
 	}
-	// 4. assume the invariant
+	// 4. assume the invariant; equalities that define a havocked leaf (sym = term) are applied as substitutions
+	{
+		vars0 := fx.loopVars(st, li)
+		for n, v := range pre {
+			vars0[n+"@pre"] = v
+		}
+		env0 := &Env{fx: fx, st: st, old: fx.Entry, vars: vars0}
+		hsyms := map[*Term]bool{}
+		for _, p := range phis {
+			for _, l := range st.Top().Vals[p].L {
+				if l.Op == "sym" {
+					hsyms[l] = true
+				}
+			}
+		}
+		sub := map[*Term]*Term{}
+		for _, inv := range ann.Inv {
+			for _, c := range conjuncts(fx.P.elab(fx, inv.X, env0).Scalar()) {
+				if c.Op != "=" {
+					continue
+				}
+				a, b := c.Args[0], c.Args[1]
+				if hsyms[b] && !hsyms[a] {
+					a, b = b, a
+				}
+				if hsyms[a] && sub[a] == nil && !mentions(b, a) {
+					sub[a] = b
+				}
+			}
+		}
+		if len(sub) > 0 {
+			// resolve chains (a := f(b), b := g(..)) by repeated substitution
+			for iter := 0; iter < 4; iter++ {
+				for k, v := range sub {
+					nv := Subst(v, sub)
+					if mentions(nv, k) {
+						delete(sub, k)
+						continue
+					}
+					sub[k] = nv
+				}
+			}
+			for _, p := range phis {
+				v := st.Top().Vals[p]
+				nl := make([]*Term, len(v.L))
+				for i, l := range v.L {
+					nl[i] = Subst(l, sub)
+				}
+				st.Top().Vals[p] = Val{T: v.T, L: nl}
+			}
+		}
+	}
 	vars := fx.loopVars(st, li)
 	for n, v := range pre {
 		vars[n+"@pre"] = v
@@ -548,7 +608,9 @@ func (fx *Fx) loopBackEdge(st *State, li *LoopInfo, pred *ssa.BasicBlock) {
 	env := &Env{fx: fx, st: st, old: fx.Entry, vars: vars}
 	pos := li.Header.Instrs[0].Pos()
 	for _, inv := range ann.Inv {
-		fx.oblige(st, "inv-step", tag+":"+inv.Label, fx.P.elab(fx, inv.X, env).Scalar(), pos)
+		g := fx.P.elab(fx, inv.X, env).Scalar()
+		debugGoalVsUnfold(fx, g)
+		fx.oblige(st, "inv-step", tag+":"+inv.Label, g, pos)
 	}
 	if ann.Decreases != nil && ctx != nil && ctx.variant != nil {
 		v1 := fx.P.elab(fx, ann.Decreases, env).Scalar()
@@ -561,4 +623,25 @@ func (fx *Fx) loopBackEdge(st *State, li *LoopInfo, pred *ssa.BasicBlock) {
 		}
 		fx.oblige(st, "variant", tag, g, pos)
 	}
+}
+
+func mentions(t, x *Term) bool {
+	seen := map[*Term]bool{}
+	var rec func(t *Term) bool
+	rec = func(t *Term) bool {
+		if t == x {
+			return true
+		}
+		if seen[t] {
+			return false
+		}
+		seen[t] = true
+		for _, a := range t.Args {
+			if rec(a) {
+				return true
+			}
+		}
+		return false
+	}
+	return rec(t)
 }
